@@ -536,7 +536,7 @@ func TestLinkedGraphs(t *testing.T) {
 	if evid.ReplayPath() != "" {
 		t.Skip()
 	}
-	evid.Check(t, "linked-graphs", evid.Scale(8000, 320000), func(t *rapid.T) {
+	evid.Check(t, "linked-graphs", evid.Scale(6000, 320000), func(t *rapid.T) {
 		c := genCase(t)
 		msg, harness, results := evaluate(c)
 		if harness != "" {
